@@ -601,11 +601,18 @@ def rule_conditional(chk, prog, tier):
             x = e
             while it.load(x.obj, ('kind',)) == ev(prog, 'EXPRCAST'): x = it.load(x.obj, ('base',))
             sel[cv] = 'l' if x.obj is ops[6][1].obj else 'r' if x.obj is ops[8][1].obj else '?'
-        return out, {n: {k: v for k, v in d.items() if k != 'type'} for n, _, d in ops}, sel, (ops[6][0], ops[8][0])
+        condres = {}
+        for cn, ce, cd in ops:
+            cur.update({'c': ce, 'l': ops[6][1], 'r': ops[6][1]})
+            try:
+                it.call(fn, [Ptr(Obj('scope', 'heap'), ())]); condres[cn] = 'ok'
+            except Terminal as t:
+                condres[cn] = 'error' if t.what == 'error' else 'terminal:' + t.what
+        return out, {n: {k: v for k, v in d.items() if k != 'type'} for n, _, d in ops}, sel, (ops[6][0], ops[8][0]), condres
     runs = explore(prog, runner, {}, max_runs=2)
     if len(runs) != 1 or runs[0].outcome != 'return':
         raise AnalysisBroken('condexpr: %s' % [(x.outcome, x.detail) for x in runs])
-    out, descs, sel, selnames = runs[0].value
+    out, descs, sel, selnames, condres = runs[0].value
     QC = ev(prog, 'QUALCONST')
     PT = {'int': ('int', 0), 'char': ('char', 0), 'void': ('void', 0), 'cint': ('int', QC), 'func': ('other', 0), 'incomplete': ('other', 0)}
     for (ln, rn), got in out.items():
@@ -633,6 +640,9 @@ def rule_conditional(chk, prog, tier):
             r.instance(got == 'error', key, where, 'C11 6.5.15p3 allows no such operand pair: expected a diagnostic, got %s' % (got,))
         else:
             r.instance(not isinstance(got, str) and False or canon(got) == canon(want) if isinstance(want, str) else got == want, key, where, 'expected result type %s, got %s' % (want, got))
+    for cn, cok in condres.items():
+        want_ok = descs[cn]['k'] in ('arith', 'ptr')
+        r.instance((cok == 'ok') == want_ok and cok in ('ok', 'error'), 'cond-first:%s' % cn, 'expr.c:%s' % fn.get('line'), 'the first operand %s; cproc: %s' % ('is scalar: valid' if want_ok else 'is not scalar: must be diagnosed', cok))
     for cv, which in sel.items():
         r.instance(which == ('l' if cv else 'r'), 'cond-const:%d' % cv, 'expr.c:%s' % fn.get('line'), 'a constant condition %d must select the %s operand; selected %s' % (cv, 'second' if cv else 'third', which))
     r.exhaustive = True
